@@ -27,10 +27,13 @@ CLAIM = {
             "reassigned, in order), independence of the sort's tie order. Tied to the code by a differential run of the "
             "extracted model against ast.SortImports and against the groups of re-parsed format.Source output on "
             "exhaustive small blocks and seeded structured/malformed files.",
-    "note": "sort.Slice is a parameter (any sorted permutation); the token.FileSet line table, comment re-attachment and the "
-            "printer are not modelled: that formatted output shows the model's runs as its groups is checked by the "
-            "differential run, not proved. Import comments whose Text() panics (one-byte '#' comment) are outside the model "
-            "and a known finding. Trusted: Coq kernel, extraction, harness. The Go code is modelled, not verified.",
+    "note": "sort.Slice is a parameter (any sorted permutation). The executed model carries the token.File line table "
+            "(lineAt, MergeLine, the Rparen clean-up) and reproduces the known findings (groups glued / MergeLine panic when two "
+            "specs share a line or the duplicate is on the last line of the file): those are stated as *_refuted theorems with "
+            "vm_compute witnesses; the positive theorems hold for every line table whenever SortImports returns. Comment "
+            "re-attachment and the printer are not modelled: that the formatted output shows the model's groups is checked by "
+            "the differential run, not proved. Import comments whose Text() panics (one-byte '#' comment) are outside the "
+            "model and a known finding. Trusted: Coq kernel, extraction, harness. The Go code is modelled, not verified.",
 }
 
 NAMES = ["", "", "", "x", "y", ".", "_"]
@@ -49,8 +52,8 @@ FINDING_SET = [
     'import (\n\t"b"\n\tx "a"\n\tx "a" #\n)\n',
 ]
 # two specs on one line: sortSpecs merges one line per removed duplicate, which can swallow the blank
-# line after the run and glue two groups together (see known_findings.d/C23.txt); deterministic set,
-# the groups of the output are judged by the direct oracle only
+# line after the run and glue two groups together, or panic on the last line of the file (see
+# known_findings.d/C23.txt); deterministic set
 SAMELINE_SET = [
     'import (\n\t"z"; "z"\n\n\t"a"\n)\n',
     'import (\n\t"y"\n\t"z"; "z"\n\n\t"a"\n)\n',
@@ -62,6 +65,10 @@ SAMELINE_SET = [
     'import (\n\t"z"; "z"; "z"\n\n\n\t"a"\n)\n',
     'import (\n\t"z"; "z"\n\t"z"; "z"\n\n\t"b"\n\n\t"a"\n)\n',
     'import ("b"; "a")\n', 'import ("b"; "a"\n"c"; "a")\n', 'import ("a"; "a")\n',
+    'import (\n\t"z"; "z"; "z"; "z"\n\n\t"b"\n\n\t"a"\n)\n',     # the merges also glue the two LATER runs before they are sorted
+    'import (\n\t"a"; "a"; "a"\n\n\t"b"\n\n\t"c"\n)\nvar x = 1\n',
+    # the closing parenthesis on the line of the last spec, at the end of the file: the dropped duplicate is on the last line
+    'import (\n"a" // c\n"a")\n', 'import (\n"a" // c\n"a")', 'import (\n"a"\n"a")\n', 'import (\n"a" // c\n"a")\nvar x = 1\n',
 ]
 FIXED_SET = [
     "", "import ()\n", 'import "a"\n', 'import (\n\t"b"\n\t"a"\n)\n', 'import (\n\t"b"\n\t"a" #\n)\n',
@@ -156,6 +163,11 @@ def strip_ids(rec):
     return "|".join(out)
 
 
+def strip_rp(rec):
+    """I1,<rparen>:... -> I1:..."""
+    return "|".join(d if ":" not in d else d.split(":", 1)[0].split(",")[0] + ":" + d.split(":", 1)[1] for d in rec.split("|"))
+
+
 def coarse(rec, after):
     """tie-order-insensitive projection: per decl the sequence of distinct consecutive (name,path)"""
     out = []
@@ -210,6 +222,7 @@ def run(ctx):
     model = ctx.model("c23")
     impl = ctx.harness("c23")
     rng = ctx.rng
+    ctx.log("built model and harness")
     cases, origin = [], {}
 
     def add(b, tag):
@@ -247,60 +260,76 @@ def run(ctx):
     inp = "\n".join(enc(b) for b in cases) + "\n"
     rc, out = ctx.run([impl], input=inp, timeout=900)
     lines = out.splitlines()
+    ctx.log("harness ran on %d inputs" % len(cases))
     if rc != 0 or len(lines) != len(cases):
         ctx.broken("correspondence(c23:harness-run)", "rc=%d lines=%d cases=%d %s" % (rc, len(lines), len(cases), out[-300:]))
         return
     F = [l.split("\t") for l in lines]
-    bad = [i for i, f in enumerate(F) if len(f) != 5]
+    bad = [i for i, f in enumerate(F) if len(f) != 7]
     if bad:
         ctx.broken("correspondence(c23:harness-output)", "malformed line for case %s: %s" % (enc(cases[bad[0]]), lines[bad[0]][:200]))
         return
     sel = [i for i, f in enumerate(F) if f[0] == "OK"]
-    minp = "\n".join(F[i][1] for i in sel) + "\n"
+    minp = "\n".join(F[i][1] + "\t" + F[i][2] for i in sel) + "\n"
     rc, mout = ctx.run([model], input=minp, timeout=900)
     mlines = mout.splitlines()
+    ctx.log("model ran")
     if rc != 0 or len(mlines) != len(sel):
         ctx.broken("correspondence(c23:model-run)", "rc=%d lines=%d cases=%d %s" % (rc, len(mlines), len(sel), mout[-300:]))
         return
     G = [l.split("\t") for l in mlines]
-    keys, ia, ma, ig, mg = [], [], [], [], []
-    n_mixed = 0
+    badm = [j for j, g in enumerate(G) if len(g) != 5]
+    if badm:
+        ctx.broken("correspondence(c23:model-output)", "malformed model line for case %s: %s" % (enc(cases[sel[badm[0]]]), mlines[badm[0]][:200]))
+        return
+    keys, ia, ma, il, ml, ig, mg = [], [], [], [], [], [], []
+    n_mixed = n_split = n_dynamic = n_ties = 0
+    incons = []
     for i, g in zip(sel, G):
         f = F[i]
         keys.append(enc(cases[i]))
-        mixed = g[2] == "1"
+        mixed = g[3] == "1"
         n_mixed += mixed
-        if origin[cases[i]] == "sameline-set" and f[2] == "PANIC":
-            # known finding (3): MergeLine panics, there is no result to compare
-            ia.append("(impl panicked)"); ma.append("(impl panicked)"); ig.append("(not compared)"); mg.append("(not compared)")
-            continue
+        if "L" not in g[4]:
+            incons.append(keys[-1])
+        if "S" not in g[4] and g[0] != "PANIC":
+            n_dynamic += 1
         if mixed:      # tie order matters for which duplicate survives: compare the tie-insensitive projection
-            ia.append(coarse(f[2], True))
-            ma.append(coarse(g[0], True))
-            ig.append(coarse(f[3], False))
-            mg.append(coarse(g[1], False))
+            ia.append(coarse(strip_rp(f[3]), True))
+            ma.append(coarse(strip_rp(g[0]), True))
+            il.append("(mixed ties)")
+            ml.append("(mixed ties)")
+            x, y = coarse(f[5], False), coarse(g[2], False)
         else:
-            ia.append(strip_ids(f[2]))
+            ia.append(strip_ids(f[3]))
             ma.append(strip_ids(g[0]))
-            ig.append(f[3] if origin[cases[i]] != "sameline-set" else "(not compared)")
-            mg.append(g[1] if origin[cases[i]] != "sameline-set" else "(not compared)")
-    # groups of declarations after the first non-import declaration are not touched by SortImports: the model prints "?"
-    for j in range(len(ig)):
-        if "?" in mg[j]:
-            a, b = ig[j].split("|"), mg[j].split("|")
+            if "T" in g[4]:     # key-equal specs: an unstable sort may drop either one, i.e. merge a different line
+                n_ties += 1     # (and then the Rparen clean-up merges a different number of lines): table not compared
+                il.append("(ties)")
+                ml.append("(ties)")
+            else:
+                il.append(f[4])
+                ml.append(g[1])
+            x, y = f[5], g[2]
+        # declarations after the first non-import declaration are not touched by SortImports: the model prints "?"
+        if "?" in y:
+            a, b = x.split("|"), y.split("|")
             if len(a) == len(b):
-                ig[j] = "|".join(x if y != "?" else "?" for x, y in zip(a, b))
-    n_split = 0
-    for j in range(len(ig)):
-        ig[j], extra = refine(ig[j], mg[j])
+                x = "|".join(p if q != "?" else "?" for p, q in zip(a, b))
+        x, extra = refine(x, y)
         n_split += extra
-    ctx.diff_lines("sort_imports~ast.SortImports", keys, "\n".join(ia), "\n".join(ma))
-    ctx.diff_lines("sorted-runs~groups-of-format.Source-output", keys, "\n".join(ig), "\n".join(mg))
+        ig.append(x)
+        mg.append(y)
+    if incons:
+        ctx.broken("assumption(lineAt)", "%d inputs: line/endline reported by the harness differ from line_at(lines0, pos); first %s" % (len(incons), incons[0][:200]))
+    ctx.diff_lines("sort_imports_m~ast.SortImports(specs)", keys, "\n".join(ia), "\n".join(ma))
+    ctx.diff_lines("sort_imports_m~ast.SortImports(line-table)", keys, "\n".join(il), "\n".join(ml))
+    ctx.diff_lines("groups-after-sort~groups-of-format.Source-output", keys, "\n".join(ig), "\n".join(mg))
     # C: direct oracle
     for b, f in zip(cases, F):
-        if f[4] != "ok":
-            ctx.fail("src:" + vlib.sha(b), "format.Source/ast.SortImports(%r): %s" % (b[:120], f[4]),
-                     {"src_hex": enc(b), "src": b.decode("utf-8", "replace"), "verdict": f[4], "origin": origin[b]})
+        if f[6] != "ok":
+            ctx.fail("src:" + vlib.sha(b), "format.Source/ast.SortImports(%r): %s" % (b[:120], f[6]),
+                     {"src_hex": enc(b), "src": b.decode("utf-8", "replace"), "verdict": f[6], "origin": origin[b]})
     # evidence
     shapes, orig_h, status_h = {}, {}, {}
     nontriv = 0
@@ -309,10 +338,10 @@ def run(ctx):
         status_h[f[0]] = status_h.get(f[0], 0) + 1
         if f[0] != "OK":
             continue
-        nb = sum(len([s for s in d.split(":", 1)[1].split(";") if s]) for d in f[1].split("|") if d.startswith("I1"))
-        na = sum(len([s for s in d.split(":", 1)[1].split(";") if s]) for d in f[2].split("|") if d.startswith("I1")) if f[2] != "PANIC" else -1
-        changed = strip_ids(f[2]) != strip_ids(";".join(",".join(s.split(",")[:7]) for s in f[1].split(";")))
-        ngroups = sum(d.count("/") + 1 for d in f[3].split("|") if d.startswith("I1") and len(d) > 3)
+        nb = sum(len([s for s in d.split(":", 1)[1].split(";") if s]) for d in f[2].split("|") if d.startswith("I1"))
+        na = sum(len([s for s in d.split(":", 1)[1].split(";") if s]) for d in f[3].split("|") if d.startswith("I1")) if f[3] != "PANIC" else -1
+        changed = strip_ids(f[3]) != strip_ids(";".join(",".join(s.split(",")[:7]) for s in f[2].split(";")))
+        ngroups = sum(d.count("/") + 1 for d in f[5].split("|") if d.startswith("I1") and len(d) > 3)
         k = "specs=%s dropped=%s groups=%s" % ("0" if nb == 0 else "1" if nb == 1 else "2-4" if nb <= 4 else "5-12" if nb <= 12 else ">12",
                                                min(nb - na, 3) if na >= 0 else "panic", min(ngroups, 4))
         shapes[k] = shapes.get(k, 0) + 1
@@ -320,19 +349,20 @@ def run(ctx):
             nontriv += 1
     pick = [i for i in sel if origin[cases[i]] == "file"][:3]
     ctx.cover(evaluations=len(cases), distinct_nontrivial=nontriv,
-              samples=[{"src": cases[i].decode("utf-8", "replace")[:400], "after": F[i][2][:300], "fmt_groups": F[i][3][:200]} for i in pick],
+              samples=[{"src": cases[i].decode("utf-8", "replace")[:400], "after": F[i][3][:300], "fmt_groups": F[i][5][:200]} for i in pick],
               rule="deterministic: %d finding-set + %d fixed-set + every block of <=%d specs over %d spec forms x {newline, blank line} "
                    "separators (%d inputs); seeded: files with optional package clause, 1-3 import declarations (blocks of 0-30 specs, "
                    "single imports, empty blocks), named/dot/blank imports, raw-string paths, duplicates, trailing line/block/'#' comments "
                    "incl. empty ones, doc comment lines, blank-line runs, trailing code; byte-mutated files "
                    "(mostly unparsable: only 'fails without panic' is checked). NOT generated in the seeded part: one-byte '#' comments "
-                   "(deterministic finding-set) and two specs on one line (deterministic sameline-set of %d inputs, whose output groups are "
-                   "judged by the direct oracle only). %d of the parsable inputs have key-equal specs differing in has-a-comment: compared on the "
+                   "(deterministic finding-set) and two specs on one line (deterministic sameline-set of %d inputs; the line-table model "
+                   "reproduces them, the direct oracle judges them). %d of the parsable inputs have key-equal specs differing in has-a-comment: compared on the "
                    "tie-insensitive projection (sequence of distinct (name,path)). non-trivial = distinct parsable file with >=2 specs in "
                    "blocks whose spec order/positions SortImports changed" % (len(FINDING_SET), len(FIXED_SET), N, len(SMALL), n_ex, len(SAMELINE_SET), n_mixed),
               origin_histogram=orig_h, status_histogram=status_h,
               shape_histogram=dict(sorted(shapes.items(), key=lambda kv: -kv[1])[:40]), model_compared=len(sel),
-              output_splits_a_run_further=n_split)
+              output_splits_a_run_further=n_split, run_boundaries_changed_by_line_merges=n_dynamic,
+              line_table_not_compared_because_of_key_ties=n_ties)
     ctx.assume("sort.Slice returns a permutation of its argument sorted for the less closure (any such function: parameter of the theorems); "
                "the executable model uses a stable insertion sort and the differential run compares tie-insensitive observables",
                "token.File.MergeLine only renumbers the lines after the merged one (line numbers are inputs of the model)",
